@@ -336,6 +336,11 @@ func (w *walker) walkExpr(e ast.Expr) {
 func (w *walker) calleeName(c *ast.CallExpr) string {
 	switch f := c.Fun.(type) {
 	case *ast.SelectorExpr:
+		if sel, ok := w.info.Selections[f]; ok && sel.Kind() == types.FieldVal {
+			if n, ok := fieldName(w.info, f); ok {
+				return "field:" + n
+			}
+		}
 		if sel, ok := w.info.Selections[f]; ok {
 			if fn, ok := sel.Obj().(*types.Func); ok {
 				recv := ""
